@@ -15,10 +15,19 @@ Oracles (the property statement itself on what the real programs print / return)
     locus exactly once, every line intact; identical to the single-locus runs, to permuted / subset target files,
     to repeated runs and to runs after unrelated work in the same process; header identical apart from the date
     and command lines;
-  * `.fit()` of DenovoMCMC / CallingMCMC bit-for-bit identical after perturbing numpy's and numba's generators and
-    after unrelated fits;
-  * fault injection (listing error in the main process, MD / reference mismatch inside a worker) at BED positions,
-    cores 1 and 3: exit status != 0, no record for the failing locus, no hang.
+  * `.fit()` of DenovoMCMC / CallingMCMC / PedigreeCallingMCMC (trio with further progeny, Gibbs and MH) bit-for-bit
+    identical after perturbing numpy's and numba's generators and after unrelated fits;
+  * fault injection (listing error in the main process, MD / reference mismatch inside a worker, a haplotype record
+    with an ALT of another length for the calling programs) at chosen positions, cores 1 and 3: exit status != 0, no
+    record for the failing locus, no hang; faults of the processes themselves: a worker killed with SIGKILL while it
+    calls a locus, stdout that cannot be written (/dev/full), a reader that goes away after the first record;
+  * records are keyed by CHROM:POS-END:ID: targets on two contigs, overlapping / nested / repeated targets (a target
+    listed k times gives k identical records), BED3 files; sampler / input options otherwise left at their defaults
+    (`--mcmc-temperatures` list and per-sample file, `--mcmc-chains`, `--mcmc-llk-cache-threshold 0 / -1`,
+    `--use-base-phred-scores`, `--sample-pool` name and file, `--prior-frequencies`), a real pedigree (children of
+    S1 x S2, one of them without alignments, mixed ploidy through a gamete-ploidy file); every fresh process runs under
+    its own PYTHONHASHSEED.
+The real-process runs are started as soon as they are defined and go on while the in-process parts run (`wp6_c08.Jobs`).
 The OS scheduler, pipes and `multiprocessing` internals are *not* modelled (partial): only the runs see them.
 """
 from __future__ import annotations
@@ -27,18 +36,20 @@ import copy
 import io
 import os
 import queue as _queue
+import re
 import shutil
 import sys
 import tempfile
 import threading
 import time
-from concurrent.futures import ThreadPoolExecutor
+from collections import Counter
 
 import numpy as np
 
 from . import common as C
 from . import gen as G
 from . import synth
+from . import wp6_c08 as W
 
 PROP = "C08"
 MODULE = "MCHap.Properties.C08"
@@ -65,15 +76,22 @@ THEOREMS = [
     "MCHap.C08.isShuffle_sound",
 ]
 RULE = ("cases: (n,k) pairs for array_split; forced schedules of the real worker/writer/main code (k workers, n loci, "
-        "0..2 failing loci, random enabled moves); fits (DenovoMCMC with/without tempering, CallingMCMC Gibbs/MH) before/after "
-        "RNG perturbation and unrelated fits; CLI runs of assemble / call / call-exact / call-pedigree on synthetic datasets "
-        "(>= 5 loci) for cores in {1,2,3,5,n+2}, permuted / subset / single-locus targets, repeated runs; fault injection "
-        "(listing error, worker error) x BED position x cores {1,3}. Non-trivial: >= 3 loci and cores >= 2 (CLI, schedules), "
+        "0..2 failing loci, random enabled moves); fits (DenovoMCMC with/without tempering, CallingMCMC Gibbs/MH, PedigreeCallingMCMC "
+        "Gibbs/MH on a trio with further progeny) before/after RNG perturbation and unrelated fits; CLI runs of assemble / call / "
+        "call-exact / call-pedigree (real pedigree, one member without alignments) on synthetic two-contig datasets (7 loci in quick: "
+        "every core count 2..6 leaves a remainder) for cores in {1,2,3,4,5,n+2}, permuted / subset / single-locus / overlapping / "
+        "nested / repeated / nameless targets, repeated runs, sampler and input options (temperatures, chains, cache threshold, phred "
+        "scores, pools, prior frequencies), fresh processes with distinct hash seeds; fault injection (listing error, worker error, "
+        "malformed haplotype record) x position x cores {1,3,4}, killed worker, unwritable stdout, closed pipe. "
+        "Non-trivial: >= 3 loci and cores >= 2 (CLI, schedules), "
         "k >= 2 and n >= 3 (split), a perturbation that changes the un-seeded result (fits). Distinct by canonical case description.")
 
 MCMC = ["--mcmc-steps", "300", "--mcmc-burn", "100"]
 DROP = ("##fileDate", "##commandline")
 TIMEOUT = 240
+KILL_TIMEOUT = 45          # a 7-locus run takes 6-8 s; a run whose worker was killed never ends on the unchanged tree
+SIG_KILL_HANG = "C08/fault/worker-killed-hang"
+SIG_PIPE_ZERO = "C08/fault/closed-pipe-exit-zero"
 
 
 # --------------------------------------------------------------------------------------
@@ -103,9 +121,21 @@ def once(chk, key, sample):
     return sample
 
 
+_END = re.compile(r"(?:^|;)END=(\d+)")
+
+
 def rid(line):
+    """key of a record: CHROM:POS-END:ID (targets may overlap, repeat, lack a name or sit on several contigs)"""
     f = line.split("\t")
-    return f[2] if len(f) > 2 else "?"
+    if len(f) < 8:
+        return "?"
+    m = _END.search(f[7])
+    return f"{f[0]}:{f[1]}-{m.group(1) if m else '?'}:{f[2]}"
+
+
+def lkey(l):
+    """the key `rid` gives the record of a target / haplotype locus (synth.Locus; name None = BED3 line)"""
+    return f"{l.contig}:{l.start + 1}-{l.stop}:{'.' if l.name is None else l.name}"
 
 
 def by_id(recs):
@@ -123,13 +153,16 @@ def intact(line, n_samples):
 class Runner:
     """in-process program runs with bookkeeping"""
 
-    def __init__(self, chk):
+    def __init__(self, chk, jobs=None):
         self.chk = chk
+        self.jobs = jobs
         self.n = 0
 
     def __call__(self, argv, what, base=False):
         """(header, records); the base run of a program must succeed (else infrastructure failure); any other run
         failing on inputs derived from a successful base run contradicts the property and is reported"""
+        if self.jobs is not None:
+            self.jobs.pump()
         out, code, err = synth.run_program(argv)
         self.n += 1
         if code != 0:
@@ -491,7 +524,7 @@ def gen_schedule(r, n, k, fails, complete):
     return sched
 
 
-def check_protocol(chk, drv, r, tier):
+def check_protocol(chk, drv, r, tier, tick=None):
     n_cases = {"warm": 3, "quick": 60, "thorough": 600}[tier]
     cases = []
     for i in range(n_cases):
@@ -506,6 +539,8 @@ def check_protocol(chk, drv, r, tier):
             for k, n, f, s in cases]
     ans = drv.ask(reqs)
     for (k, n, fails, sched), req, a in zip(cases, reqs, ans):
+        if tick is not None:
+            tick()
         chk.count(f"schedule:k={k}")
         chk.count("schedule:with-failure" if fails else "schedule:no-failure")
         if a.startswith("stuck") or a == "bad-op":
@@ -543,10 +578,43 @@ def check_protocol(chk, drv, r, tier):
 # part C: fits and the history of the process
 # --------------------------------------------------------------------------------------
 
-def check_fits(chk, r, tier):
+def gen_pedigree_case(r, n_alleles, haps):
+    """a trio with a second child (and sometimes a grand-child): ploidies, parents, gametes and per-sample reads in the
+    padded layout `call-pedigree` builds (samples x max reads x positions x alleles, NaN padding, zero counts)"""
+    ploidy = r.choice([2, 2, 4, 4, 4])
+    n = r.choice([4, 4, 5])
+    parents = [[-1, -1], [-1, -1], [0, 1], [0, 1]] + ([[2, -1]] if n == 5 else [])
+    if r.random() < 0.3:
+        parents[3] = [1, 0]
+    sample_ploidy = np.full(n, ploidy, dtype=np.int64)
+    tau = np.full((n, 2), ploidy // 2, dtype=np.int64)
+    lam = np.zeros((n, 2))
+    if ploidy == 4 and r.random() < 0.5:
+        lam[2] = [r.choice([0.0, 0.1]), r.choice([0.0, 0.25])]
+    err = np.full((n, 2), r.choice([0.01, 0.05]))
+    per = []
+    for i in range(n):
+        g = [list(haps[r.randrange(len(haps))]) for _ in range(ploidy)]
+        rd, ct = G.gen_reads(r, n_alleles, r.randint(0 if i >= 2 else 3, 8), haps=g, gap=0.2, style="encoded")
+        per.append((rd, ct))
+    mx = max(1, max(len(rd) for rd, _ in per))
+    reads = np.full((n, mx, len(n_alleles), max(n_alleles)), np.nan)
+    counts = np.zeros((n, mx), dtype=np.int64)
+    for i, (rd, ct) in enumerate(per):
+        reads[i, :len(rd)] = rd
+        counts[i, :len(ct)] = ct
+    return {"sample_ploidy": sample_ploidy, "sample_inbreeding": np.zeros(n), "sample_parents": np.array(parents, dtype=np.int64),
+            "gamete_tau": tau, "gamete_lambda": lam, "gamete_error": err}, reads, counts
+
+
+FIT_KINDS = ["denovo", "denovo-tempered", "calling-gibbs", "calling-mh", "pedigree-gibbs", "pedigree-mh"]
+
+
+def check_fits(chk, r, tier, tick=None):
     import numba
     from mchap.assemble.mcmc import DenovoMCMC
     from mchap.calling.classes import CallingMCMC
+    from mchap.pedigree.classes import PedigreeCallingMCMC
     from mchap.jitutils import seed_numba
 
     @numba.njit(cache=False)
@@ -556,39 +624,49 @@ def check_fits(chk, r, tier):
             s += np.random.random()
         return s
 
-    n_cases = {"warm": 2, "quick": 16, "thorough": 160}[tier]
+    n_cases = {"warm": 3, "quick": 24, "thorough": 240}[tier]
     steps = 120
-
-    def make(kind, seed, ploidy, n_alleles, haps):
-        if kind.startswith("denovo"):
-            temps = [0.3, 1.0] if kind == "denovo-tempered" else [1.0]
-            return DenovoMCMC(ploidy=ploidy, n_alleles=n_alleles, steps=steps, chains=2, random_seed=seed,
-                              temperatures=temps)
-        return CallingMCMC(ploidy=ploidy, haplotypes=haps, steps=steps, chains=2, random_seed=seed,
-                           step_type="Gibbs" if kind == "calling-gibbs" else "Metropolis-Hastings")
-
-    def trace_bytes(model, reads, counts):
-        t = model.fit(reads, read_counts=counts)
-        return t.genotypes.tobytes() + b"|" + t.llks.tobytes()
+    nk = len(FIT_KINDS)
 
     for i in range(n_cases):
-        kind = ["denovo", "denovo-tempered", "calling-gibbs", "calling-mh"][i % 4]
+        if tick is not None:
+            tick()
+        kind = FIT_KINDS[i % nk]
+        if tier == "warm":
+            kind = ["denovo-tempered", "calling-gibbs", "pedigree-gibbs"][i % 3]
         ploidy = r.choice([2, 4, 4, 6])
         n_base = r.randint(2, 5)
         n_alleles = G.gen_n_alleles(r, n_base)
         g = G.gen_genotype(r, ploidy, n_alleles)
         reads, counts = G.gen_reads(r, n_alleles, r.randint(4, 10), haps=g, gap=0.2, style="encoded")
         haps = np.unique(np.array([G.gen_haplotype(r, n_alleles) for _ in range(5)] + g, dtype=np.int8), axis=0)
+        ped_kw, ped_reads, ped_counts = gen_pedigree_case(r, n_alleles, haps)
         seed = r.randint(0, 2 ** 31 - 1)
         # boundary values of the seed are legal seeds too: 0 (falsy) and the largest 32-bit value
-        if (i // 4) % 3 == 0:
+        rnd = i // nk
+        if rnd % 3 == 0:
             seed = 0
-        elif (i // 4) % 3 == 1 and i % 8 < 4:
+        elif rnd % 3 == 1 and i % 2 == 0:
             seed = 2 ** 32 - 2
         k1, k2 = r.randint(1, 50), r.randint(1, 50)
         other_seed = r.randint(0, 2 ** 31 - 1)
-        perturb = r.sample(["numpy-draws", "numba-draws", "reseed-both", "unrelated-fit", "unrelated-fit-other-kind"],
-                           r.randint(2, 5))
+        perturb = r.sample(["numpy-draws", "numba-draws", "reseed-both", "unrelated-fit", "unrelated-fit-other-kind",
+                            "unrelated-pedigree-fit"], r.randint(2, 6))
+
+        def fit(kind, seed):
+            """trace of one fit as bytes (genotypes, and log-likelihoods where the trace has them)"""
+            if kind.startswith("pedigree"):
+                m = PedigreeCallingMCMC(haplotypes=haps, steps=steps, annealing=steps // 3, chains=2, random_seed=seed,
+                                        step_type="Gibbs" if kind == "pedigree-gibbs" else "Metropolis-Hastings", **ped_kw)
+                return m.fit(ped_reads, ped_counts).genotypes.tobytes()
+            if kind.startswith("denovo"):
+                temps = [0.3, 1.0] if kind == "denovo-tempered" else [1.0]
+                m = DenovoMCMC(ploidy=ploidy, n_alleles=n_alleles, steps=steps, chains=2, random_seed=seed, temperatures=temps)
+            else:
+                m = CallingMCMC(ploidy=ploidy, haplotypes=haps, steps=steps, chains=2, random_seed=seed,
+                                step_type="Gibbs" if kind == "calling-gibbs" else "Metropolis-Hastings")
+            t = m.fit(reads, read_counts=counts)
+            return t.genotypes.tobytes() + b"|" + t.llks.tobytes()
 
         def do_perturb():
             for p in perturb:
@@ -599,26 +677,31 @@ def check_fits(chk, r, tier):
                 elif p == "reseed-both":
                     np.random.seed(other_seed % (2 ** 32)); seed_numba(other_seed % (2 ** 32))
                 elif p == "unrelated-fit":
-                    trace_bytes(make(kind, other_seed, ploidy, n_alleles, haps), reads, counts)
+                    fit(kind, other_seed)
+                elif p == "unrelated-pedigree-fit":
+                    fit("pedigree-gibbs", other_seed)
                 else:
-                    ok = "calling-gibbs" if kind.startswith("denovo") else "denovo"
-                    trace_bytes(make(ok, other_seed, ploidy, n_alleles, haps), reads, counts)
+                    fit("calling-gibbs" if kind.startswith("denovo") else "denovo", other_seed)
 
-        a = trace_bytes(make(kind, seed, ploidy, n_alleles, haps), reads, counts)
+        case = {"kind": kind, "ploidy": ploidy, "n_alleles": n_alleles, "seed": seed, "perturb": perturb,
+                "k1": k1, "k2": k2, "reads": reads.shape, "case": i}
+        if kind.startswith("pedigree"):
+            case.update({"pedigree_ploidy": int(ped_kw["sample_ploidy"][0]), "parents": ped_kw["sample_parents"].tolist(),
+                         "lambda": ped_kw["gamete_lambda"].tolist(), "haplotypes": len(haps)})
+        chk.breadcrumb("fit", case)
+        a = fit(kind, seed)
         do_perturb()
-        b = trace_bytes(make(kind, seed, ploidy, n_alleles, haps), reads, counts)
+        b = fit(kind, seed)
         # is the perturbation observable at all?  (un-seeded fits from two different generator states)
         np.random.seed(1); seed_numba(1)
-        u0 = trace_bytes(make(kind, None, ploidy, n_alleles, haps), reads, counts)
+        u0 = fit(kind, None)
         np.random.seed(1); seed_numba(1); nb_draw(k2)
-        u1 = trace_bytes(make(kind, None, ploidy, n_alleles, haps), reads, counts)
+        u1 = fit(kind, None)
+        other = fit(kind, seed + 1)
         observable = u0 != u1
-        other = trace_bytes(make(kind, seed + 1, ploidy, n_alleles, haps), reads, counts)
         chk.count(f"fit:{kind}")
         chk.count("fit:perturbation-observable" if observable else "fit:perturbation-not-observable")
         chk.count("fit:other-seed-differs" if other != a else "fit:other-seed-same")
-        case = {"kind": kind, "ploidy": ploidy, "n_alleles": n_alleles, "seed": seed, "perturb": perturb,
-                "k1": k1, "k2": k2, "reads": reads.shape, "case": i}
         chk.case(case, observable, sample=once(chk, "fit", {
             "request": f"fit {kind} seed={seed} perturb={perturb}",
             "impl": "identical" if a == b else "different",
@@ -645,15 +728,19 @@ def compare_records(chk, what, base_by_id, recs, sig, case, expect_ids=None):
     """every record of `recs` equals the base record of the same locus; ids as expected, each once"""
     got = by_id(recs)
     ok = True
+    mult = Counter(expect_ids) if expect_ids is not None else {}
     for i, ls in got.items():
-        if len(ls) != 1:
-            chk.violation(f"{what}: locus {i} appears {len(ls)} times", {**case, "locus": i}, "C08/cores/once")
+        want_n = mult.get(i, 1) if expect_ids is not None else 1      # a target listed k times gives k records
+        if len(ls) != want_n:
+            chk.violation(f"{what}: locus {i} appears {len(ls)} times (listed {want_n} times)", {**case, "locus": i},
+                          "C08/cores/once")
             ok = False
         if i not in base_by_id:
             chk.violation(f"{what}: unexpected record {i}", {**case, "locus": i}, "C08/cores/once")
             ok = False
-        elif ls[0] != base_by_id[i][0]:
-            chk.violation(f"{what}: the record of locus {i} differs", {**case, "locus": i, "got": ls[0][:600],
+        elif any(x != base_by_id[i][0] for x in ls):
+            bad = next(x for x in ls if x != base_by_id[i][0])
+            chk.violation(f"{what}: the record of locus {i} differs", {**case, "locus": i, "got": bad[:600],
                                                                          "base": base_by_id[i][0][:600]}, sig)
             ok = False
     if expect_ids is not None:
@@ -667,32 +754,251 @@ def compare_records(chk, what, base_by_id, recs, sig, case, expect_ids=None):
 
 def check_order_admissible(chk, drv_reqs, what, ids, order_ids, k, case):
     """queue a driver request: is the observed order an interleaving of the model's blocks?"""
+    if len(set(ids)) != len(ids):
+        return                      # a target listed twice: positions are ambiguous, the multiset oracle covers it
     pos = {x: i for i, x in enumerate(ids)}
     if any(x not in pos for x in order_ids):
         return
     drv_reqs.append((f"sched.shuffle {k} {len(ids)} {' '.join(str(pos[x]) for x in order_ids)}", what, case))
 
 
-def check_cli(chk, drv, r, tier, work):
-    run = Runner(chk)
+def hash_env(r):
+    """every fresh process gets its own string-hash seed: nothing may depend on set / dict-of-str iteration order"""
+    return {"PYTHONHASHSEED": str(r.randint(1, 4_000_000))}
+
+
+def set_arg(argv, opt, *values):
+    """copy of argv with the single value following `opt` replaced by `values`"""
+    argv = list(argv)
+    i = argv.index(opt)
+    argv[i + 1:i + 2] = list(values)
+    return argv
+
+
+def pedigree_files(r, work, ds, tag):
+    """A real pedigree over the samples of `ds`: S1, S2 founders, every further sample with alignments their child, and a
+    further child D1 listed only in the pedigree file (no alignments: the program adds it as a sample without reads).
+    Ploidy / gamete-ploidy files list everybody (as maps by name, lines shuffled).  Returns (option list, sample columns)."""
+    s = list(ds.samples)
+    p1, p2 = ds.ploidy[s[0]], ds.ploidy[s[1]]
+    ploidy = dict(ds.ploidy)
+    ploidy["D1"] = p1 // 2 + p2 // 2
+    rows = [(s[0], ".", "."), (s[1], ".", ".")] + [(x, s[0], s[1]) for x in s[2:]] + [("D1", s[0], s[1])]
+    tau = {s[0]: (p1 // 2, p1 // 2), s[1]: (p2 // 2, p2 // 2), "D1": (p1 // 2, p2 // 2)}
+    for x in s[2:]:
+        tau[x] = (ds.ploidy[x] // 2, ds.ploidy[x] // 2)       # 1+1 or 2+2: never more than a parent carries
+    lines_p = [f"{a}\t{b}\t{c}\n" for a, b, c in rows]
+    # the founders come first (a parent must be a known sample before its child is read); the rest is shuffled
+    tail = lines_p[2:]
+    r.shuffle(tail)
+    ped = synth.write_text(os.path.join(work, f"{tag}.ped.txt"), "".join(lines_p[:2] + tail))
+    names = list(ploidy)
+    r.shuffle(names)
+    pl = synth.write_text(os.path.join(work, f"{tag}.ped.ploidy.txt"), "".join(f"{x}\t{ploidy[x]}\n" for x in names))
+    r.shuffle(names)
+    gp = synth.write_text(os.path.join(work, f"{tag}.ped.gametes.txt"), "".join(f"{x}\t{tau[x][0]}\t{tau[x][1]}\n" for x in names))
+    return {"ped": ped, "ploidy": pl, "gametes": gp, "n_columns": len(s) + 1}
+
+
+def special_targets(chk, r, run, jobs, drv_reqs, work, ds, d, acommon, base, hdr0, tag, tier):
+    """targets that overlap, nest, repeat (same and different name), a BED without names, all over two contigs:
+    every record equals the record of that target run on its own; a target listed k times gives k identical records"""
+    rich = [l for l in ds.loci if len(l.snv_positions) >= 2] or [l for l in ds.loci if l.snv_positions] or list(ds.loci)
+    A = r.choice(rich)
+    B, Cc = r.choice(ds.loci), r.choice(ds.loci)
+    clen = len(ds.contigs[A.contig])
+    q = max(1, (A.stop - A.start) // 4)
+    nested = synth.Locus("nest1", A.contig, A.start + r.randint(1, q), A.stop - r.randint(1, q), [], [])
+    mid = (A.start + A.stop) // 2
+    overlap = synth.Locus("ovl1", A.contig, mid, min(clen, A.stop + r.randint(8, 30)), [], [])
+    left = synth.Locus("ovl2", A.contig, max(0, A.start - r.randint(5, 20)), A.start + q + 1, [], [])
+    alias = synth.Locus("alias1", Cc.contig, Cc.start, Cc.stop, [], [])
+    extras = [nested, overlap, left, alias]
+    pool = {k: v for k, v in base.items()}
+    sp = {**tag, "prog": "assemble", "stream": "special-targets"}
+    for x in extras:
+        bed = synth.write_bed(os.path.join(work, f"ds{d}.sp.{x.name}.bed"), [x])
+        h, rs = run(set_arg(ds.assemble_argv(*acommon), "--targets", bed), f"assemble on target {x.name} alone")
+        chk.count("cli:special-single-target")
+        if len(rs) != 1 or rid(rs[0]) != lkey(x):
+            chk.violation(f"assemble on the single target {lkey(x)} printed {[rid(y) for y in rs]}", {**sp, "target": lkey(x)},
+                          "C08/cores/once")
+            return
+        pool[lkey(x)] = [rs[0]]
+    order = list(ds.loci) + extras + [B]            # B twice: same line, same name
+    r.shuffle(order)
+    want = [lkey(x) for x in order]
+    bed = synth.write_bed(os.path.join(work, f"ds{d}.sp.all.bed"), order)
+    argv = set_arg(ds.assemble_argv(*acommon), "--targets", bed)
+    h, rs = run(argv, "assemble special targets")
+    chk.count("cli:special-targets")
+    chk.case({**sp, "order": want, "cores": 1}, True)
+    compare_records(chk, f"assemble with overlapping / nested / repeated targets {want}", pool, rs, "C08/order/record",
+                    {**sp, "order": want}, want)
+    if [rid(x) for x in rs] != want:
+        chk.disagreement("single-core assemble does not follow the order of the targets file", {**sp, "want": want,
+                                                                                              "got": [rid(x) for x in rs]})
+    if h != hdr0:
+        chk.violation("assemble: header differs for another targets file", sp, "C08/header")
+    for cores in ([3] if tier == "quick" else [2, 3, 4]):
+        h, rs = run(argv + ["--cores", str(cores)], f"assemble special targets cores {cores}")
+        chk.count("cli:special-targets-cores-inproc")
+        chk.case({**sp, "order": want, "cores": cores}, True)
+        compare_records(chk, f"assemble --cores {cores} with overlapping / nested / repeated targets", pool, rs,
+                        "C08/cores/multiset", {**sp, "order": want, "cores": cores}, want)
+    order2 = list(order)
+    r.shuffle(order2)
+    bed2 = synth.write_bed(os.path.join(work, f"ds{d}.sp.perm.bed"), order2)
+    cores = r.choice([2, 4, 5])
+    jobs.submit(f"assemble special-targets cores={cores}", set_arg(argv, "--targets", bed2) + ["--cores", str(cores)],
+                {"base": pool, "hdr": hdr0, "ids": [lkey(x) for x in order2], "cores": cores, "tag": sp,
+                 "n_samples": len(ds.samples)}, env=hash_env(r))
+    # ---- the same without names (BED3): the key is CHROM:POS-END, records compared among BED3 runs only
+    nameless = [synth.Locus(None, x.contig, x.start, x.stop, [], []) for x in list(ds.loci) + [nested, overlap, B]]
+    r.shuffle(nameless)
+    want3 = [lkey(x) for x in nameless]
+    bed3 = synth.write_text(os.path.join(work, f"ds{d}.sp.bed3"), "".join(f"{x.contig}\t{x.start}\t{x.stop}\n" for x in nameless))
+    argv3 = set_arg(ds.assemble_argv(*acommon), "--targets", bed3)
+    h3, rs3 = run(argv3, "assemble BED3 targets")
+    base3 = by_id(rs3)
+    chk.count("cli:bed3-targets")
+    sp3 = {**sp, "stream": "bed3-targets"}
+    chk.case({**sp3, "order": want3, "cores": 1}, True)
+    if sorted(rid(x) for x in rs3) != sorted(want3):
+        chk.violation(f"assemble on a BED3 file: records {[rid(x) for x in rs3]} for targets {want3}", sp3, "C08/cores/once")
+        return
+    for k, ls in base3.items():
+        if any(x != ls[0] for x in ls):
+            chk.violation(f"assemble on a BED3 file: the two records of the repeated target {k} differ", {**sp3, "locus": k},
+                          "C08/order/record")
+    one = r.choice([x for x in nameless])
+    bed31 = synth.write_text(os.path.join(work, f"ds{d}.sp.one.bed3"), f"{one.contig}\t{one.start}\t{one.stop}\n")
+    h, rs = run(set_arg(argv3, "--targets", bed31), "assemble one BED3 target")
+    compare_records(chk, f"assemble on the BED3 target {lkey(one)} alone", base3, rs, "C08/order/record", sp3, [lkey(one)])
+    perm3 = list(nameless)
+    r.shuffle(perm3)
+    bed3p = synth.write_text(os.path.join(work, f"ds{d}.sp.perm.bed3"), "".join(f"{x.contig}\t{x.start}\t{x.stop}\n" for x in perm3))
+    cores = r.choice([2, 3, 4])
+    h, rs = run(set_arg(argv3, "--targets", bed3p) + ["--cores", str(cores)], f"assemble BED3 cores {cores}")
+    chk.count("cli:bed3-cores-inproc")
+    chk.case({**sp3, "order": [lkey(x) for x in perm3], "cores": cores}, True)
+    compare_records(chk, f"assemble --cores {cores} on a permuted BED3 file", base3, rs, "C08/cores/multiset",
+                    {**sp3, "cores": cores}, [lkey(x) for x in perm3])
+    cores = r.choice([3, 5])
+    jobs.submit(f"assemble bed3 cores={cores}", argv3 + ["--cores", str(cores)],
+                {"base": base3, "hdr": h3, "ids": want3, "cores": cores, "tag": sp3, "n_samples": len(ds.samples)},
+                env=hash_env(r))
+
+
+def option_runs(chk, r, run, jobs, work, ds, d, tier, common, hv, raw_hdr, recs0, ped, tag):
+    """sampler / input options that are otherwise left at their defaults: each configuration is run single-core in this
+    process, again after unrelated work with a permuted subset on several cores, and in fresh processes"""
+    s = ds.samples
+    n_loci = len(ds.loci)
+    tfile = synth.write_text(os.path.join(work, f"ds{d}.temps.txt"), f"{s[-1]}\t0.3\t0.7\n")       # other samples: no tempering
+    pools = [(s[0], "PA"), (s[1], "PA"), (s[1], "PB")] + [(x, "PB") for x in s[2:]]
+    r.shuffle(pools)
+    pfile = synth.write_text(os.path.join(work, f"ds{d}.pools.txt"), "".join(f"{a}\t{b}\n" for a, b in pools))
+    ppl = synth.write_text(os.path.join(work, f"ds{d}.pools.ploidy.txt"),
+                           f"PB\t{ds.ploidy[s[1]]}\nPA\t{ds.ploidy[s[0]] + ds.ploidy[s[1]]}\n")
+    asm = ds.assemble_argv(*common)
+    configs = [
+        ("assemble", "temperatures-list", asm + ["--mcmc-temperatures", "0.25", "0.6", "--mcmc-chains", "1"], len(s), False),
+        ("assemble", "temperatures-file", asm + ["--mcmc-temperatures", tfile, "--mcmc-chains", "3", "--mcmc-llk-cache-threshold", "0"],
+         len(s), True),
+        ("assemble", "no-cache+phred", asm + ["--mcmc-llk-cache-threshold", "-1", "--use-base-phred-scores"], len(s), False),
+        ("assemble", "pool-file", set_arg(asm, "--ploidy", ppl) + ["--sample-pool", pfile], 2, True),
+    ]
+    cex = ds.call_argv("call-exact", hv)
+    cal = ds.call_argv("call", hv, *common)
+    cpd = ["mchap", "call-pedigree", "--bam", *ds.bams, "--ploidy", ped["ploidy"], "--haplotypes", hv, "--sample-parents", ped["ped"],
+           "--gamete-ploidy", ped["gametes"], *common]
+    configs += [
+        ("call", "prior+chains", cal + ["--prior-frequencies", "AFP", "--mcmc-chains", "3"], len(s), False),
+        ("call", "pool-name", set_arg(cal, "--ploidy", "6") + ["--sample-pool", "ALL", "--use-base-phred-scores"], 1, True),
+        ("call-exact", "prior+phred", cex + ["--prior-frequencies", "AFP", "--use-base-phred-scores"], len(s), False),
+        ("call-pedigree", "prior+chains", cpd + ["--prior-frequencies", "AFP", "--mcmc-chains", "1"], ped["n_columns"], True),
+    ]
+    if tier == "thorough":
+        configs += [
+            ("assemble", "temperatures-one", asm + ["--mcmc-temperatures", "0.5"], len(s), False),
+            ("call-exact", "pool-file", set_arg(cex, "--ploidy", ppl) + ["--sample-pool", pfile, "--prior-frequencies", "AFP"], 2, True),
+            ("call-pedigree", "chains3", cpd + ["--mcmc-chains", "3", "--use-base-phred-scores"], ped["n_columns"], False),
+        ]
+    for prog, name, argv, n_cols, fresh_single in configs:
+        otag = {**tag, "prog": prog, "options": name}
+        out, code, err = synth.run_program(argv)
+        chk.count(f"cli:options:{prog}:{name}")
+        if code != 0:
+            # not this property's business (C07 / C16 judge whether the options are accepted); nothing to compare
+            chk.count("cli:options:base-run-fails")
+            chk.notes.append(f"{prog} with {name} fails on dataset {d}: {err[:160]}")
+            continue
+        oh, orecs = split_out(out)
+        obase = by_id(orecs)
+        oids = [rid(x) for x in orecs]
+        for l in orecs:
+            if not intact(l, n_cols):
+                chk.violation(f"{prog} ({name}): a record line is not intact", {**otag, "line": l[:300]}, "C08/cores/intact")
+        # (i) after unrelated work, permuted subset, several cores, same process
+        perturb_process(r)
+        if prog == "assemble":
+            sel = list(ds.loci)
+            r.shuffle(sel)
+            sel = sel[: r.randint(3, n_loci)]
+            bed = synth.write_bed(os.path.join(work, f"ds{d}.opt.{name}.bed"), sel)
+            argv2 = set_arg(argv, "--targets", bed)
+            want = [lkey(x) for x in sel]
+        else:
+            sel = list(recs0)
+            r.shuffle(sel)
+            sel = sel[: r.randint(3, n_loci)]
+            p = synth.write_text(os.path.join(work, f"ds{d}.opt.{prog}.{name}.vcf"), "\n".join(raw_hdr + sel) + "\n")
+            argv2 = set_arg(argv, "--haplotypes", p)
+            want = [rid(x) for x in sel]
+        cores = r.choice([2, 3])
+        h, rs = run(argv2 + ["--cores", str(cores)], f"{prog} ({name}) permuted subset cores {cores}")
+        chk.case({**otag, "what": "perm/subset", "order": want, "cores": cores}, True)
+        compare_records(chk, f"{prog} ({name}) with {want} (cores {cores}) after unrelated work", obase, rs, "C08/options/record",
+                        {**otag, "order": want, "cores": cores}, want)
+        if h != oh:
+            chk.violation(f"{prog} ({name}): header differs between runs", otag, "C08/header")
+        # (ii) fresh processes
+        cores = r.choice([3, 4, 5])
+        jobs.submit(f"{prog} options={name} cores={cores}", argv + ["--cores", str(cores)],
+                    {"base": obase, "hdr": oh, "ids": oids, "cores": cores, "tag": otag, "n_samples": n_cols, "sig": "C08/options/record"},
+                    env=hash_env(r))
+        if fresh_single or tier == "thorough":
+            jobs.submit(f"{prog} options={name} cores=1", argv,
+                        {"base": obase, "hdr": oh, "ids": oids, "cores": 1, "tag": otag, "n_samples": n_cols, "sig": "C08/options/record"},
+                        env=hash_env(r))
+
+
+def check_cli(chk, drv, r, tier, work, jobs):
+    run = Runner(chk, jobs)
     n_datasets = {"warm": 1, "quick": 1, "thorough": 3}[tier]
-    sub_jobs = []       # (label, argv, expectation dict)
     drv_reqs = []
     for d in range(n_datasets):
-        n_loci = 6 if tier != "thorough" else r.choice([5, 7, 9])
+        # 7 loci: no core count in 2..6 divides them (the last block of an uneven split is where loci get lost)
+        n_loci = 7 if tier != "thorough" else r.choice([5, 7, 10, 11])
         n_samples = 2 if d == 0 else 3
         ds = synth.make_dataset(r, os.path.join(work, f"ds{d}"), n_samples=n_samples, n_loci=n_loci, ploidies=(2, 4),
-                                max_snvs=4, depth=(6, 14), contig_len=150 * n_loci)
-        ids = [l.name for l in ds.loci]
+                                max_snvs=4, depth=(6, 14), n_contigs=2, contig_len=150 * ((n_loci + 1) // 2))
+        ids = [lkey(l) for l in ds.loci]
         seed_args = ["--mcmc-seed", str(r.randint(1, 10 ** 6))]
         common = [*MCMC, *seed_args]
+        acommon = [*common, "--report", "AFP"]          # INFO/AFP is what --prior-frequencies reads further down
         tag = {"dataset": d, "n_loci": n_loci, "n_samples": n_samples}
+        chk.count(f"cli:loci={n_loci}")
 
         # ---------------- assemble
-        hdr0, recs0 = run(ds.assemble_argv(*common), "assemble base", base=True)
+        hdr0, recs0 = run(ds.assemble_argv(*acommon), "assemble base", base=True)
         raw_hdr = list(run.raw_header)
         base = by_id(recs0)
         chk.count("cli:assemble-base")
+        # faults of the processes themselves are started first: a hang costs its whole time-out
+        if d == 0 and tier != "warm":
+            process_fault_jobs(r, tier, ds, acommon, jobs, len(raw_hdr))
         if [rid(l) for l in recs0] != ids:
             chk.disagreement("single-core assemble does not write the records in target order",
                              {**tag, "order": [rid(l) for l in recs0]})
@@ -701,7 +1007,7 @@ def check_cli(chk, drv, r, tier, work):
                 chk.violation("a record line is not intact", {**tag, "line": l[:300]}, "C08/cores/intact")
         # repeated, after unrelated work
         perturb_process(r)
-        hdr1, recs1 = run(ds.assemble_argv(*common), "assemble repeat")
+        hdr1, recs1 = run(ds.assemble_argv(*acommon), "assemble repeat")
         chk.case({**tag, "prog": "assemble", "what": "repeat"}, False)
         if recs1 != recs0:
             compare_records(chk, "assemble repeated in the same process", base, recs1, "C08/repeat/record", tag, ids)
@@ -712,20 +1018,20 @@ def check_cli(chk, drv, r, tier, work):
         # single-locus runs (BED of one line; --region for two of them)
         for j, l in enumerate(ds.loci):
             if j < 2:
-                argv = [a for a in ds.assemble_argv(*common)]
+                argv = [a for a in ds.assemble_argv(*acommon)]
                 i = argv.index("--targets")
                 argv[i:i + 2] = ["--region", f"{l.contig}:{l.start}-{l.stop}", "--region-id", l.name]
                 how = "region"
             else:
                 bed = synth.write_bed(os.path.join(work, f"ds{d}.one{j}.bed"), [l])
-                argv = ds.assemble_argv(*common)
+                argv = ds.assemble_argv(*acommon)
                 argv[argv.index("--targets") + 1] = bed
                 how = "bed"
             h, rs = run(argv, "assemble single locus")
             chk.count("cli:assemble-single-locus")
             chk.case({**tag, "prog": "assemble", "what": "single", "locus": l.name, "how": how}, False)
             compare_records(chk, f"assemble on locus {l.name} alone ({how})", base, rs, "C08/order/record",
-                            {**tag, "how": how}, [l.name])
+                            {**tag, "how": how}, [lkey(l)])
             if h != hdr0:
                 chk.violation("assemble: header differs for a single-locus run", {**tag, "how": how}, "C08/header")
         # permuted and subset target files
@@ -736,13 +1042,13 @@ def check_cli(chk, drv, r, tier, work):
             if v % 2 == 1:
                 sel = sel[: r.randint(2, max(2, n_loci - 1))]
             bed = synth.write_bed(os.path.join(work, f"ds{d}.var{v}.bed"), sel)
-            argv = ds.assemble_argv(*common)
+            argv = ds.assemble_argv(*acommon)
             argv[argv.index("--targets") + 1] = bed
             cores = r.choice([1, 2, 3])
             if cores > 1:
                 argv += ["--cores", str(cores)]
             h, rs = run(argv, "assemble permuted/subset")
-            want = [l.name for l in sel]
+            want = [lkey(l) for l in sel]
             chk.count("cli:assemble-permuted" if v % 2 == 0 else "cli:assemble-subset")
             chk.case({**tag, "prog": "assemble", "what": "perm/subset", "order": want, "cores": cores},
                      len(want) >= 3 and cores >= 2)
@@ -756,10 +1062,11 @@ def check_cli(chk, drv, r, tier, work):
                                        {**tag, "cores": cores})
             if h != hdr0:
                 chk.violation("assemble: header differs for a permuted / subset targets file", {**tag}, "C08/header")
-        # cores, in-process (forked workers)
-        for cores in ([2, 3, 5, n_loci + 2] if tier == "quick" else [2, 3, 4, 5, n_loci, n_loci + 2, 16]):
-            h, rs = run(ds.assemble_argv(*common, "--cores", str(cores)), f"assemble cores {cores}")
+        # cores, in-process (forked workers); with 7 loci every count in 2..6 leaves a remainder
+        for cores in ([2, 3, 4, 5, n_loci + 2] if tier == "quick" else [2, 3, 4, 5, 6, n_loci, n_loci + 2, 16]):
+            h, rs = run(ds.assemble_argv(*acommon, "--cores", str(cores)), f"assemble cores {cores}")
             chk.count(f"cli:assemble-cores-inproc")
+            chk.count("cli:cores-with-remainder" if (n_loci % cores and cores <= n_loci) else "cli:cores-even-or-more-than-loci")
             chk.case({**tag, "prog": "assemble", "what": "cores-inproc", "cores": cores}, n_loci >= 3)
             compare_records(chk, f"assemble --cores {cores} (forked in-process)", base, rs, "C08/cores/multiset",
                             {**tag, "cores": cores}, ids)
@@ -769,9 +1076,13 @@ def check_cli(chk, drv, r, tier, work):
                 chk.violation("assemble: header differs between core counts", {**tag, "cores": cores}, "C08/header")
         # cores, real subprocesses
         for cores in ([1, 2, 3, 5] if d == 0 else [3]):
-            sub_jobs.append((f"assemble cores={cores}", ds.assemble_argv(*common, "--cores", str(cores)),
-                             {"base": base, "hdr": hdr0, "ids": ids, "cores": cores, "tag": {**tag, "prog": "assemble"},
-                              "n_samples": n_samples}))
+            jobs.submit(f"assemble cores={cores}", ds.assemble_argv(*acommon, "--cores", str(cores)),
+                        {"base": base, "hdr": hdr0, "ids": ids, "cores": cores, "tag": {**tag, "prog": "assemble"},
+                         "n_samples": n_samples}, env=hash_env(r))
+
+        # ---------------- overlapping / nested / repeated / nameless targets
+        if d == 0 or tier == "thorough":
+            special_targets(chk, r, run, jobs, drv_reqs, work, ds, d, acommon, base, hdr0, tag, tier)
 
         # ---------------- boundary seed: --mcmc-seed 0 is a seed like any other
         if d == 0 and tier != "warm":
@@ -794,23 +1105,30 @@ def check_cli(chk, drv, r, tier, work):
             argv0[argv0.index("--targets") + 1] = bed0
             zh3, zr3 = run(argv0, "assemble seed 0 reversed subset")
             compare_records(chk, "assemble --mcmc-seed 0 on a reversed subset of the targets", zbase, zr3, "C08/order/record",
-                            {**tag, "mcmc_seed": 0}, [l.name for l in sel0])
+                            {**tag, "mcmc_seed": 0}, [lkey(l) for l in sel0])
 
         # ---------------- call / call-exact / call-pedigree on the assembled haplotypes
         hv_txt = synth.write_text(os.path.join(work, f"ds{d}.haps.vcf"),
                                   "\n".join(raw_hdr + recs0) + "\n")
         hv = synth.bgzip_tabix_vcf(hv_txt)
-        ped = synth.write_text(os.path.join(work, f"ds{d}.ped.txt"),
-                               "".join(f"{s}\t{p}\t{q}\n" for s, p, q in _pedigree(ds.samples)))
+        ped = pedigree_files(r, work, ds, f"ds{d}")
         for prog in ("call", "call-exact", "call-pedigree"):
             extra = list(common) if prog != "call-exact" else []
+            n_cols = n_samples
             if prog == "call-pedigree":
-                extra += ["--sample-parents", ped]
-            argv0 = ds.call_argv(prog, hv, *extra)
+                # a real pedigree (children of S1 x S2, one of them without alignments), mixed ploidy via a gamete file
+                argv0 = ["mchap", prog, "--bam", *ds.bams, "--ploidy", ped["ploidy"], "--haplotypes", hv, *extra,
+                         "--sample-parents", ped["ped"], "--gamete-ploidy", ped["gametes"]]
+                n_cols = ped["n_columns"]
+            else:
+                argv0 = ds.call_argv(prog, hv, *extra)
             perturb_process(r)
             ch0, cr0 = run(argv0, f"{prog} base", base=True)
             cbase = by_id(cr0)
             chk.count(f"cli:{prog}-base")
+            for l in cr0:
+                if not intact(l, n_cols):
+                    chk.violation(f"{prog}: a record line is not intact", {**tag, "line": l[:300]}, "C08/cores/intact")
             perturb_process(r)
             ch1, cr1 = run(argv0, f"{prog} repeat")
             chk.case({**tag, "prog": prog, "what": "repeat"}, False)
@@ -845,9 +1163,10 @@ def check_cli(chk, drv, r, tier, work):
                 if cores > 1:
                     check_order_admissible(chk, drv_reqs, f"{prog} in-process", want, [rid(x) for x in rs], cores,
                                            {**tag, "prog": prog, "cores": cores})
-            for cores in ([2, 5] if tier == "quick" else [2, 3, 5, n_loci + 2]):
+            for cores in ([2, 5] if tier == "quick" else [2, 3, 4, 5, n_loci + 2]):
                 h, rs = run(argv0 + ["--cores", str(cores)], f"{prog} cores {cores}")
                 chk.count(f"cli:{prog}-cores-inproc")
+                chk.count("cli:cores-with-remainder" if (n_loci % cores and cores <= n_loci) else "cli:cores-even-or-more-than-loci")
                 chk.case({**tag, "prog": prog, "what": "cores-inproc", "cores": cores}, n_loci >= 3)
                 compare_records(chk, f"{prog} --cores {cores} (forked in-process)", cbase, rs, "C08/cores/multiset",
                                 {**tag, "prog": prog, "cores": cores}, ids)
@@ -855,28 +1174,51 @@ def check_cli(chk, drv, r, tier, work):
                                        {**tag, "prog": prog, "cores": cores})
                 if h != ch0:
                     chk.violation(f"{prog}: header differs between core counts", {**tag, "cores": cores}, "C08/header")
-            if d == 0 and prog == "call":
-                for cores in (1, 3):
-                    sub_jobs.append((f"call cores={cores}", argv0 + ["--cores", str(cores)],
-                                     {"base": cbase, "hdr": ch0, "ids": ids, "cores": cores,
-                                      "tag": {**tag, "prog": "call"}, "n_samples": n_samples}))
+            # fresh processes: every program has a fresh single-core baseline and an uneven multi-core run
+            if d == 0:
+                for cores in ((1, 3) if prog == "call" else (1, 4)):
+                    jobs.submit(f"{prog} cores={cores}", argv0 + ["--cores", str(cores)],
+                                {"base": cbase, "hdr": ch0, "ids": ids, "cores": cores,
+                                 "tag": {**tag, "prog": prog}, "n_samples": n_cols}, env=hash_env(r))
+
+        # ---------------- sampler / input options
+        if d == 0 or tier == "thorough":
+            option_runs(chk, r, run, jobs, work, ds, d, tier, common, hv, raw_hdr, recs0, ped, tag)
 
         # ---------------- fault injection (real subprocesses)
         if d == 0:
-            sub_jobs += fault_jobs(r, tier, work, ds, common)
-    return sub_jobs, drv_reqs
+            fault_jobs(r, tier, work, ds, acommon, common, jobs, raw_hdr, recs0, ped)
+    return drv_reqs
 
 
-def _pedigree(samples):
-    """every sample a founder: valid for any mix of ploidies; the sampler still runs (and re-seeds) per locus"""
-    return [(s, ".", ".") for s in samples]
+def process_fault_jobs(r, tier, ds, acommon, jobs, n_header):
+    """a worker process killed from outside (SIGKILL, what the OOM killer does) while it calls one locus; stdout that
+    cannot be written (ENOSPC from the first flush); a reader that goes away after the first record (EPIPE in the writer).
+    In every case the run must end, and end with a non-zero status."""
+    n = len(ds.loci)
+    ids = [lkey(l) for l in ds.loci]
+    base_argv = ds.assemble_argv(*acommon)
+    kills = [(r.randrange(n), 3)] if tier != "thorough" else [(p, c) for p in sorted({0, n // 2, n - 1}) for c in (2, 3)]
+    for pos, cores in kills:
+        F = ds.loci[pos]
+        jobs.submit(f"fault killed pos={pos} cores={cores}", base_argv + ["--cores", str(cores)],
+                    {"fault": "killed", "pos": pos, "cores": cores, "ids": ids, "failing": lkey(F), "n_samples": len(ds.samples),
+                     "tag": {"prog": "assemble", "fault": "killed", "pos": pos, "cores": cores, "n_loci": n}},
+                    timeout=KILL_TIMEOUT, env=hash_env(r), kill_locus=F.name)
+    for mode, what in (("devfull", "devfull"), ("closed-pipe", "closed-pipe")):
+        for cores in (1, 3):
+            jobs.submit(f"fault {what} cores={cores}", base_argv + ["--cores", str(cores)],
+                        {"fault": what, "pos": None, "cores": cores, "ids": ids, "failing": None, "n_samples": len(ds.samples),
+                         "tag": {"prog": "assemble", "fault": what, "cores": cores, "n_loci": n}},
+                        env=hash_env(r), mode=mode, keep_lines=n_header + 1)
 
 
-def fault_jobs(r, tier, work, ds, common):
-    """two kinds of failing locus, placed at chosen positions of the targets file"""
+def fault_jobs(r, tier, work, ds, acommon, common, jobs, raw_hdr, recs0, ped):
+    """failing loci placed at chosen positions: (i) listing error in the main process, (ii) error inside a worker,
+    (iii) a malformed haplotype record (ALT of another length than REF) for the calling programs"""
     with_snv = [l for l in ds.loci if l.snv_positions]
     if not with_snv:
-        return []
+        return
     F = r.choice(with_snv)
     # (i) SNV file whose REF disagrees with the FASTA -> error while the loci are listed (main process)
     loci2 = copy.deepcopy(ds.loci)
@@ -903,46 +1245,76 @@ def fault_jobs(r, tier, work, ds, common):
     else:
         positions = sorted({r.choice([0, n - 1]), r.randrange(1, n - 1)})
     others = [l for l in ds.loci if l.name != F.name]
-    jobs = []
     for pos in positions:
         order = others[:pos] + [F] + others[pos:]
         bed = synth.write_bed(os.path.join(work, f"fault.pos{pos}.bed"), order)
-        ids = [l.name for l in order]
+        ids = [lkey(l) for l in order]
         for kind in ("listing", "worker"):
             for cores in (1, 3):
                 argv = ["mchap", "assemble", "--bam", *([bad_bam] + ds.bams[1:] if kind == "worker" else ds.bams),
                         "--ploidy", ds.ploidy_file, "--targets", bed,
                         "--variants", bad_vcf if kind == "listing" else ds.snv_vcf,
-                        "--reference", ds.fasta, *common, "--cores", str(cores)]
-                jobs.append((f"fault {kind} pos={pos} cores={cores}", argv,
-                             {"fault": kind, "pos": pos, "cores": cores, "ids": ids, "failing": F.name,
-                              "n_samples": len(ds.samples),
-                              "tag": {"prog": "assemble", "fault": kind, "pos": pos, "cores": cores, "n_loci": n}}))
-    return jobs
+                        "--reference", ds.fasta, *acommon, "--cores", str(cores)]
+                jobs.submit(f"fault {kind} pos={pos} cores={cores}", argv,
+                            {"fault": kind, "pos": pos, "cores": cores, "ids": ids, "failing": lkey(F),
+                             "n_samples": len(ds.samples),
+                             "tag": {"prog": "assemble", "fault": kind, "pos": pos, "cores": cores, "n_loci": n}},
+                            env=hash_env(r))
+    # (iii) one haplotype record with an ALT allele shorter than REF
+    m = len(recs0)
+    progs = [("call", 1), ("call-exact", 3), ("call-pedigree", 3), ("call", 4)]
+    if tier == "thorough":
+        progs = [(pg, c) for pg in ("call", "call-exact", "call-pedigree") for c in (1, 2, 3)]
+    for j, (prog, cores) in enumerate(progs):
+        pos = r.randrange(m) if j else r.randrange(1, m)           # the first one never in front: a prefix is expected
+        f = recs0[pos].split("\t")
+        alts = [] if f[4] == "." else f[4].split(",")
+        if alts:
+            k = r.randrange(len(alts))
+            alts[k] = alts[k][:-1]
+        else:
+            alts = [f[3][:-1]]
+            if f[9:]:
+                pass                                             # genotypes of the record are not read by the programs
+        f[4] = ",".join(alts)
+        lines = list(recs0)
+        lines[pos] = "\t".join(f)
+        path = synth.write_text(os.path.join(work, f"fault.malformed{j}.vcf"), "\n".join(raw_hdr + lines) + "\n")
+        extra = list(common) if prog != "call-exact" else []
+        if prog == "call-pedigree":
+            argv = ["mchap", prog, "--bam", *ds.bams, "--ploidy", ped["ploidy"], "--haplotypes", path, *extra,
+                    "--sample-parents", ped["ped"], "--gamete-ploidy", ped["gametes"], "--cores", str(cores)]
+            n_cols = ped["n_columns"]
+        else:
+            argv = ds.call_argv(prog, path, *extra, "--cores", str(cores))
+            n_cols = len(ds.samples)
+        ids = [rid(x) for x in recs0]
+        jobs.submit(f"fault malformed {prog} pos={pos} cores={cores}", argv,
+                    {"fault": "malformed", "pos": pos, "cores": cores, "ids": ids, "failing": ids[pos], "n_samples": n_cols,
+                     "tag": {"prog": prog, "fault": "malformed", "pos": pos, "cores": cores, "n_loci": m}},
+                    env=hash_env(r))
 
 
-def run_subprocesses(chk, drv, sub_jobs, drv_reqs):
-    def one(job):
-        label, argv, exp = job
-        t0 = time.time()
-        out, code, err = synth.run_program_subprocess(argv, timeout=TIMEOUT)
-        return label, argv, exp, out, code, err, time.time() - t0
-
-    with ThreadPoolExecutor(max_workers=8) as ex:
-        results = list(ex.map(one, sub_jobs))
+def run_subprocesses(chk, drv, results, drv_reqs):
     single_reqs = []
     for label, argv, exp, out, code, err, dt in results:
         tag = exp["tag"]
         hdr, recs = split_out(out)
         order = [rid(x) for x in recs]
-        chk.count("subprocess:" + label.split(" ")[0])
+        chk.count("subprocess:" + label.split(" ")[0] + (":" + exp["fault"] if "fault" in exp else ""))
         chk.extra.setdefault("subprocess_wall_s", {})[label] = round(dt, 1)
         nontriv = len(exp["ids"]) >= 3 and exp["cores"] >= 2
         chk.case({**tag, "what": "subprocess", "label": label}, nontriv,
                  sample=once(chk, "subprocess", {"request": label, "impl": f"exit {code}, records {order}",
                                                  "model": "see oracles"}))
+        last_err = (err.strip().split("\n")[-1] if err.strip() else "")[:400]
         if code == 124:
-            chk.violation(f"{label}: no exit within {TIMEOUT} s", {**tag, "argv": argv}, "C08/multicore/hang")
+            if exp.get("fault") == "killed":
+                chk.violation(f"{label}: a worker process is killed (SIGKILL) while calling one locus and the program never exits "
+                              f"(no exit within {KILL_TIMEOUT} s; the main process waits for a result that cannot arrive)",
+                              {**tag, "argv": argv, "killed_at": exp["failing"], "records_written": order}, SIG_KILL_HANG)
+            else:
+                chk.violation(f"{label}: no exit within {TIMEOUT} s", {**tag, "argv": argv}, "C08/multicore/hang")
             continue
         for l in recs:
             if not intact(l, exp["n_samples"]):
@@ -950,10 +1322,9 @@ def run_subprocesses(chk, drv, sub_jobs, drv_reqs):
         if "fault" not in exp:
             if code != 0:
                 chk.violation(f"{label}: the program fails (exit {code}) although the single-core in-process run succeeds",
-                              {**tag, "argv": argv, "exit": code, "stderr": err.strip().split("\n")[-1][:400]},
-                              "C08/run/status")
+                              {**tag, "argv": argv, "exit": code, "stderr": last_err}, "C08/run/status")
                 continue
-            compare_records(chk, label + " (subprocess)", exp["base"], recs, "C08/cores/multiset", tag, exp["ids"])
+            compare_records(chk, label + " (subprocess)", exp["base"], recs, exp.get("sig", "C08/cores/multiset"), tag, exp["ids"])
             if hdr != exp["hdr"]:
                 chk.violation(f"{label}: header differs from the single-core in-process run", tag, "C08/header")
             if exp["cores"] > 1:
@@ -961,9 +1332,21 @@ def run_subprocesses(chk, drv, sub_jobs, drv_reqs):
             elif order != exp["ids"]:
                 chk.disagreement("single-core run does not write the records in target order", {**tag, "order": order})
             continue
+        # ---- stdout cannot be written / the reader went away: every record is lost, the status must say so
+        if exp["fault"] in ("devfull", "closed-pipe"):
+            case = {**tag, "exit": code, "records_read_before_closing": order, "stderr": last_err, "argv": argv}
+            if code == 0:
+                if exp["fault"] == "devfull":
+                    chk.violation(f"{label}: stdout is /dev/full (every write fails with ENOSPC) but the exit status is 0",
+                                  case, "C08/fault/devfull-exit-zero")
+                else:
+                    chk.violation(f"{label}: the reader of stdout goes away after the first record (the writer gets EPIPE), the "
+                                  f"remaining {len(exp['ids']) - len(order)} records are lost, and the exit status is 0",
+                                  case, SIG_PIPE_ZERO)
+            continue
         # ---- a failing locus
         failing, ids = exp["failing"], exp["ids"]
-        case = {**tag, "exit": code, "records": order, "failing": failing, "stderr": err.strip().split("\n")[-1][:300]}
+        case = {**tag, "exit": code, "records": order, "failing": failing, "stderr": last_err[:300]}
         if code == 0:
             chk.violation(f"{label}: a locus fails but the exit status is 0"
                           + ("" if failing in order else " and its record is silently missing"),
@@ -975,7 +1358,7 @@ def run_subprocesses(chk, drv, sub_jobs, drv_reqs):
         f = ids.index(failing)
         if exp["cores"] == 1:
             single_reqs.append((f"sched.single {len(ids)} 1 {f}", label, ids, order, code, case))
-        elif exp["fault"] == "listing":
+        elif exp["fault"] in ("listing", "malformed"):
             if order:
                 chk.disagreement("records were written although listing the loci fails before any worker starts",
                                  case)
@@ -1018,21 +1401,35 @@ def run(tier, replay=None):
         "the samplers' random streams are abstract (any deterministic function of the two generator states); that the code "
         "draws from no other source of randomness is observed (bit-identical traces), not proved",
         "non-zero exit relies on the interpreter terminating the pool / manager at exit after job.get() re-raises (observed "
-        "by fault injection incl. a timeout for hangs; in the model `raised` is absorbing)",
+        "by fault injection incl. a timeout for hangs; in the model `raised` is absorbing and a worker never vanishes without "
+        "raising: a worker killed from outside and a writer whose stdout breaks are outside the model and only the runs see them)",
         "the tie order of np.argsort, float printing and file parsing are outside this property",
     ])
     chk.prove()
     drv = C.Driver(EXE)
-    r = C.rng(PROP)
     work = tempfile.mkdtemp(prefix="verif-c08-")
+    jobs = W.Jobs(workers=10)
+    phase = chk.extra.setdefault("phase_wall_s", {})
     try:
-        check_split(chk, drv, r, tier)
-        check_protocol(chk, drv, r, tier)
-        check_fits(chk, r, tier)
-        sub_jobs, drv_reqs = check_cli(chk, drv, r, tier, work)
-        if tier == "warm":
-            sub_jobs = sub_jobs[:1]
-        run_subprocesses(chk, drv, sub_jobs, drv_reqs)
+        # the command-line part comes first: its real-process runs are started as they are defined and go on in the
+        # background while the in-process parts run (each part draws from its own generator)
+        t0 = time.time()
+        drv_reqs = check_cli(chk, drv, C.rng(PROP + ":cli"), tier, work, jobs)
+        phase["cli-in-process"] = round(time.time() - t0, 1)
+        r = C.rng(PROP)
+        for name, part in (("split", lambda: check_split(chk, drv, r, tier)),
+                           ("protocol", lambda: check_protocol(chk, drv, r, tier, tick=jobs.pump)),
+                           ("fits", lambda: check_fits(chk, r, tier, tick=jobs.pump))):
+            t0 = time.time()
+            part()
+            phase[name] = round(time.time() - t0, 1)
+        t0 = time.time()
+        results = jobs.results()
+        phase["waiting-for-subprocesses"] = round(time.time() - t0, 1)
+        run_subprocesses(chk, drv, results, drv_reqs)
+    except BaseException:
+        jobs.abort()
+        raise
     finally:
         shutil.rmtree(work, ignore_errors=True)
     return chk.finish()
